@@ -252,6 +252,7 @@ func depthOf(v any) int {
 func (p *c08) RunCase(i int) *core.CaseResult {
 	defer withNoise()()
 	r := &core.CaseResult{}
+	defer withUsage(r, "C08")()
 	q := c08Queries[i%len(c08Queries)]
 	variant := i / len(c08Queries)
 	mix := variant == 1 || variant == 3 || variant == 5
